@@ -155,6 +155,46 @@ def run_case(case):
             "evals": 1 + N + nB}
 
 
+def _observe(sc, name):
+    """call one public observation helper of StandardCombi (output discarded, figures closed, files written into the scratch cwd)"""
+    import io
+    import contextlib
+    import matplotlib.pyplot as plt
+    from sparseSpACE.StandardCombi import StandardCombi
+    with contextlib.redirect_stdout(io.StringIO()):
+        if name == "print_resulting_combi_scheme":
+            sc.print_resulting_combi_scheme(filename="obs_scheme")
+        elif name == "print_subspaces":
+            sc.print_subspaces(filename="obs_subspaces")
+        elif name == "print_resulting_sparsegrid":
+            sc.print_resulting_sparsegrid(filename="obs_sparsegrid", show_fig=False)
+        elif name == "plot":
+            sc.plot(filename="obs_plot")
+        elif name == "plot_contour":
+            sc.plot(filename="obs_contour", contour=True)
+        elif name == "check_combi_scheme":
+            sc.check_combi_scheme()
+        elif name == "get_points_and_weights":
+            sc.get_points_and_weights()
+        elif name == "get_surplusses":
+            sc.get_surplusses()
+        elif name == "save_restore":
+            sc.save_to_file("obs_saved.dill")
+            StandardCombi.restore_from_file("obs_saved.dill")
+        elif name == "points_per_component":
+            for g in sc.scheme:
+                sc.get_points_component_grid(g.levelvector)
+                sc.get_points_and_weights_component_grid(g.levelvector)
+                sc.get_num_points_component_grid(g.levelvector, False)
+        else:
+            raise core.HarnessError("unknown observer %r" % name)
+    plt.close("all")
+
+
+OBSERVERS = ["print_resulting_combi_scheme", "print_subspaces", "print_resulting_sparsegrid", "plot", "plot_contour", "check_combi_scheme",
+             "get_points_and_weights", "get_surplusses", "save_restore", "points_per_component"]
+
+
 def _reuse_case(c):
     """ONE StandardCombi object performs the operation for a sequence of (lmin,lmax) pairs; after each one the scheme, the
     result and the interpolant must equal those of a fresh object"""
@@ -174,7 +214,19 @@ def _reuse_case(c):
         return StandardCombi(a, b, operation=op, print_output=False, print_level=1000, log_level=1000)
     lat = [tuple(a[k] + t * (b[k] - a[k]) for k, t in enumerate(p)) for p in itertools.product(LATTICE_1D, repeat=d)]
     shared = make()
-    for step, (lmin, lmax) in enumerate(c["sequence"]):
+    fresh = None
+    for step, entry in enumerate(c["sequence"]):
+        if isinstance(entry, str):
+            # a public observer (plot / print / export helper) called on the shared object between two operations: it must not
+            # change what the object computes now or later
+            _observe(shared, entry)
+            if fresh is not None:
+                v1, v2 = np.asarray(shared(lat)), np.asarray(fresh(lat))
+                if not np.allclose(v1, v2, rtol=1e-13, atol=1e-15) or shared.get_total_num_points() != fresh.get_total_num_points():
+                    fails.append(fail("observer_changes_object", "after %s: interpolant / point count differ from a fresh object" % entry, dict(key, observer=entry)))
+                    break
+            continue
+        lmin, lmax = entry
         sch1, _, res1 = shared.perform_operation(lmin, lmax)
         fresh = make()
         sch2, _, res2 = fresh.perform_operation(lmin, lmax)
@@ -228,6 +280,15 @@ def cases(tier):
                 for seq in itertools.product(menu[:5], repeat=3):
                     if tier != "quick" or boundary:
                         out.append({"config": {"kind": "reuse", "d": d, "a": box[0], "b": box[1], "boundary": boundary, "sequence": [list(x) for x in seq]}})
+    # observers between two operations on ONE object: every public plot / print / export helper, then another level range
+    for d, box in ((2, ([-1.0, 0.5], [2.0, 3.0])), (3, ([0.0, -1.0, 2.0], [1.0, 1.0, 3.0]))):
+        for boundary in (True, False):
+            for obs in OBSERVERS:
+                for first, second in (((1, 2), (1, 3)), ((2, 3), (1, 2)), ((1, 3), (1, 3)), ((1, 2), (2, 3))):
+                    if d == 3 and (tier == "quick" and (first, second) != ((1, 2), (1, 3))):
+                        continue
+                    out.append({"config": {"kind": "reuse", "d": d, "a": box[0], "b": box[1], "boundary": boundary,
+                                           "sequence": [list(first), obs, list(second)]}})
     if tier != "quick":
         for lmin in range(1, 5):
             out.append({"config": {"d": 2, "lmin": lmin, "lmax": 5, "a": [0.0, 0.0], "b": [1.0, 1.0], "boundary": True}})
